@@ -75,8 +75,9 @@ def gen_case(rng):
     n_spec = rng.choice([80, 120, 160])
     case = dict(
         n_spectra=n_spec, max_per=rng.choice([1, 2, 3]), nfeat=rng.choice([2, 5, 17, 18, 22]),
-        est=rng.choice(["tagdecision", "tagproba", "tagdecision", "svm", "forest"]),
-        folds=rng.choice([2, 3, 4]), seed=rng.randrange(1000), data_seed=rng.randrange(1 << 30),
+        est=rng.choice(["tagdecision", "tagproba", "orderprobe", "orderprobe", "svm", "forest"]),
+        folds=rng.choice([2, 2, 3, 4]), seed=rng.randrange(1000), data_seed=rng.randrange(1 << 30),
+        cap=rng.choice([None, None, 0.4, 0.8]),
         nan_col=rng.random() < 0.4, levels=[c for c in ("ModifiedPeptide", "Precursor") if rng.random() < 0.4],
         dedup=rng.random() < 0.7,
     )
@@ -104,6 +105,9 @@ def make_model(case):
     if k == "tagproba":
         return mokapot.Model(recest.TagProba(run=recest.new_run(), tagged=False), scaler="as-is", train_fdr=THR, max_iter=2,
                              override=True, rng=case["seed"])
+    if k == "orderprobe":   # output depends on the order of the training rows: any reordering shows in the scores
+        return mokapot.Model(recest.TagProba(run=recest.new_run(), tagged=False, order=True), scaler="as-is",
+                             train_fdr=THR, max_iter=2, override=True, rng=case["seed"])
     if k == "svm":
         return mokapot.PercolatorModel(train_fdr=THR, max_iter=2, rng=case["seed"], override=True)
     return mokapot.Model(RandomForestClassifier(n_estimators=8, random_state=case["seed"], max_depth=4),
@@ -131,8 +135,9 @@ def run_config(case, df, d, cfg, tag):
                               spectra_cols=list(sd.columns), spectra=sd.astype(float).values.tolist(),
                               spectra_index=list(sd.index))
         model = make_model(case)
+        cap = None if case.get("cap") is None else max(10, int(case["cap"] * n * (case["folds"] - 1) / case["folds"]))
         _, models, scores, descs = mokapot.brew(ds, model, test_fdr=THR, folds=case["folds"],
-                                                max_workers=cfg["workers"], rng=case["seed"])
+                                                max_workers=cfg["workers"], rng=case["seed"], subset_max_train=cap)
         out["scores"] = np.asarray(scores[0], dtype=float).ravel()
         out["descs"] = [bool(x) for x in descs]
         coefs = []
@@ -216,7 +221,7 @@ def run_case(chk, case):
                 diff = f"variant run failed although the baseline succeeded: {type(e).__name__}: {e}"[:300]
                 tb = traceback.format_exc()[-600:]
             chk.case(None, key, sample=dict(table_rows=len(df), est=case["est"], variant={k: str(v) for k, v in cfg.items()}))
-            chk.count("est", case["est"]); chk.count("fmt", cfg["fmt"]); chk.count("workers", cfg["workers"])
+            chk.count("est", case["est"]); chk.count("cap", str(case.get("cap"))); chk.count("folds", case["folds"]); chk.count("fmt", cfg["fmt"]); chk.count("workers", cfg["workers"])
             for k in ("confidence", "merge", "predict", "read_all", "drop_rows", "drop_cols"):
                 chk.count(k, str(cfg[k]))
             chk.count("jitter", cfg["jitter"])
